@@ -387,8 +387,9 @@ func extractC09(c *Ctx) error {
 
 	// classification table
 	type entry struct {
-		Class string `json:"class"`
-		Why   string `json:"why"`
+		Class   string `json:"class"`
+		Why     string `json:"why"`
+		Backing string `json:"backing"` // the proved lemma / harness oracle the class rests on (second round)
 	}
 	table := map[string]entry{}
 	tpath := os.Getenv("VERIF_C09_TABLE")
@@ -401,6 +402,7 @@ func extractC09(c *Ctx) error {
 		}
 	}
 	classCount := map[string]int{}
+	backed := 0
 	var unclassified []string
 	c.P("(* Roots: AppModule.BeginBlock / EndBlock of every module *)")
 	var rk []string
@@ -416,6 +418,13 @@ func extractC09(c *Ctx) error {
 		cl := "unclassified"
 		if e, ok := table[s.ID]; ok && e.Class != "" {
 			cl = e.Class
+			// a class that rests on an invariant outside the function must name what checks the invariant
+			if cl == "not-sender-controlled" && strings.TrimSpace(e.Backing) == "" {
+				cl = "unclassified"
+			}
+			if e.Backing != "" {
+				backed++
+			}
 		}
 		if cl == "unclassified" {
 			unclassified = append(unclassified, s.ID)
@@ -442,6 +451,7 @@ func extractC09(c *Ctx) error {
 	c.Info("sites", len(sites))
 	c.Info("classes", classCount)
 	c.Info("stale_table_entries", stale)
+	c.Info("sites_with_named_backing", backed)
 	if len(unclassified) > 0 {
 		if len(unclassified) > 8 {
 			c.Info("unclassified_first", unclassified[:8])
